@@ -126,6 +126,9 @@ func (fr *Frame) applySpec(sp *FuncSpec, fn *ssa.Function, name string, args []V
 	}
 	// ghost events: the call itself is the event
 	for _, ev := range sp.Events {
+		if ev.When != nil {
+			continue // conditional events are recorded once the results are known (below)
+		}
 		nkey := "ev|" + ev.Name + "|n"
 		cnt, ok := st.ghost[nkey]
 		if !ok {
@@ -154,6 +157,35 @@ func (fr *Frame) applySpec(sp *FuncSpec, fn *ssa.Function, name string, args []V
 	}
 	penv := &SpecEnv{u: u, st: st, old: old, names: map[string]SVal{}}
 	u.bindParams(penv, sp, fn, sig, args, results)
+	for _, ev := range sp.Events {
+		if ev.When == nil {
+			continue
+		}
+		cond, err := penv.evalBool(ev.When)
+		if err != nil {
+			u.unsupportedf("event %s condition: %v", ev.Name, err)
+			continue
+		}
+		nkey := "ev|" + ev.Name + "|n"
+		cnt, ok := st.ghost[nkey]
+		if !ok {
+			cnt = u.ghostInit(nkey)
+		}
+		for k, a := range ev.Args {
+			t, err := penv.evalTerm(a)
+			if err != nil {
+				u.unsupportedf("event %s argument %d: %v", ev.Name, k, err)
+				continue
+			}
+			akey := fmt.Sprintf("ev|%s|%d", ev.Name, k)
+			arr, ok := st.ghost[akey]
+			if !ok {
+				arr = u.ghostArrInit(akey, ArrSort(SInt, t.Sort))
+			}
+			st.ghost[akey] = u.c.Def("evarg", Ite(cond, Store(arr, cnt, t), arr))
+		}
+		st.ghost[nkey] = u.c.Def("evn", Ite(cond, Add(cnt, IntLit(1)), cnt))
+	}
 	for _, en := range append(append([]Clause{}, sp.Ensures...), sp.Assumed...) {
 		if en.Kind == "assumes" {
 			u.extUsed["assumed-clause:"+shortFn(name)+": "+en.Text] = true
